@@ -10,21 +10,25 @@ import (
 	"verif/harness/forge"
 	"verif/harness/idsx"
 	"verif/harness/page"
+	"verif/harness/queryx"
 	"verif/harness/snapx"
 	"verif/harness/world"
 )
 
 var commands = map[string]func(args []string){
-	"page":           page.Run,
-	"clock":          clockx.Run,
-	"snapshot":       snapx.Run,
-	"snapshot-trace": snapx.TraceCmd,
-	"ids-vectors":    idsx.Vectors,
-	"ids-trace":      idsx.Trace,
-	"forge":          forge.Run,
-	"forge-worker":   forge.Worker,
-	"world":          world.RunCmd,
-	"world-worker":   world.WorkerCmd,
+	"page":              page.Run,
+	"clock":             clockx.Run,
+	"forge":             forge.Run,
+	"forge-worker":      forge.Worker,
+	"ids-vectors":       idsx.Vectors,
+	"ids-trace":         idsx.Trace,
+	"snapshot":          snapx.Run,
+	"snapshot-trace":    snapx.TraceCmd,
+	"query-parse":       queryx.ParseCmd,
+	"query-trace":       queryx.EvalCmd,
+	"query-parse-trace": queryx.ParseTraceCmd,
+	"world":             world.RunCmd,
+	"world-worker":      world.WorkerCmd,
 }
 
 func main() {
